@@ -824,8 +824,12 @@ class Interp:
         F = self.bind_args(fn, args, kw, F0)
         self.under_contract.add(fn.qual)
         if fc.requires:
+            site = ''
+            if node is not None:
+                try: site = '@' + ' '.join(ast.unparse(node).split())[:70]
+                except Exception: site = ''
             for label, g in fc.requires(self, F):
-                self.ob(f"pre-at-call:{fn.qual.split('.')[-1]}:{label}", g, kind='pre')
+                self.ob(f"pre-at-call:{fn.qual.split('.')[-1]}:{label}{site}", g, kind='pre')
         old = {}
         if fc.modifies_self:
             old['$heap'] = self.snapshot()
@@ -1249,6 +1253,8 @@ class Interp:
             self.axgroups = {}
             try:
                 r = body_fn(self)
+                # vacuity canary at the end of every completed path: assumptions + background axioms must not be contradictory
+                self.ob('path-end-canary', BoolVal(False), kind='canary')
                 results.append(('ok', self.st, r))
             except PathEnd:
                 results.append(('end', self.st, None))
